@@ -80,6 +80,11 @@ Fixpoint resolve_template (ls : list loader) (idx : nat) (path : str) (g : gstat
 Definition log_misses (ls : list loader) (path : str) (g : gstate) : gstate :=
   snd (resolve_template (map (fun _ => mkLoader []) ls) 0 path g).
 
+(* some loader of the set has the name (what `if_exists` asks: an error about ANOTHER name, raised
+   while compiling a file that exists, is not "the optional file is missing" - fix D41) *)
+Definition served (ls : list loader) (path : str) : bool :=
+  existsb (fun l => match assoc_get (fsloader_abs [] path) (l_files l) with Some _ => true | None => false end) ls.
+
 Definition toks_of (l : list atok) : list token := map a_tok l.
 Fixpoint take_code (l : list atok) : list atok * list atok :=
   match l with
@@ -616,7 +621,8 @@ Section Compile.
               let '(ifexists, rest) := match match_ident_val rest0 [105; 102; 95; 101; 120; 105; 115; 116; 115] (* if_exists *) with Some x => (true, x) | None => (false, rest0) end in
               let iname := resolve_filename (t_isstr tst) (t_name tst) fname in
               match compile_file f iname g with
-              | Err 4 => if ifexists then Ok (NIncludeEmpty, ts, (tst, log_misses (se_loaders se) iname g)) else Err 4
+              | Err 4 => if ifexists && negb (served (se_loaders se) iname)
+                         then Ok (NIncludeEmpty, ts, (tst, log_misses (se_loaders se) iname g)) else Err 4
               | Ok (itpl, g1) =>
                   do '(pairs, only, rest') <-
                     (match match_ident_val rest [119; 105; 116; 104] (* with *) with
